@@ -25,6 +25,7 @@ type DexPlan struct {
 	T       *dexTracker
 	JumpW   int
 	Drip    okey // order currently being filled piecewise by genCluster's drip mode (generator state only)
+	Dormant map[pkey]bool // (app, pair id) of pairs the generators leave alone (env.dormant_pool)
 	GaugeW  int
 	MagUnit sdk.Int
 }
@@ -333,7 +334,11 @@ func (w *World) dexPairs() []liqtypes.Pair {
 	var out []liqtypes.Pair
 	ctx := w.Ctx()
 	for _, app := range w.Dex.AppIDs {
-		out = append(out, w.App.LiquidityKeeper.GetAllPairs(ctx, app)...)
+		for _, pr := range w.App.LiquidityKeeper.GetAllPairs(ctx, app) {
+			if !w.Dex.Dormant[pkey{app, pr.Id}] {
+				out = append(out, pr)
+			}
+		}
 	}
 	return out
 }
@@ -344,6 +349,9 @@ func (w *World) dexPools() []dexPool {
 	for _, app := range w.Dex.AppIDs {
 		for _, pl := range w.App.LiquidityKeeper.GetAllPools(ctx, app) {
 			pair, _ := w.App.LiquidityKeeper.GetPair(ctx, app, pl.PairId)
+			if w.Dex.Dormant[pkey{app, pl.PairId}] {
+				continue
+			}
 			out = append(out, dexPool{pl, pair})
 		}
 	}
@@ -980,6 +988,7 @@ func dexGens(w *World) []OpGen {
 		{"farm.unfarm", 4 * fb, func(w *World, r *Rng) *Event { return w.genUnfarm(r, false) }},
 		{"farm.unfarm_withdraw", 4 * lb, func(w *World, r *Rng) *Event { return w.genUnfarm(r, true) }},
 		{"pool.create", 1, func(w *World, r *Rng) *Event { return w.genPoolCreate(r) }},
+		{"farm.spread", 2 * fb * gaugeW, func(w *World, r *Rng) *Event { return w.genFarmSpread(r) }},
 		{"gauge.create", gaugeW, func(w *World, r *Rng) *Event {
 			pool, ok := w.pickPool(r, true)
 			if !ok {
@@ -1355,4 +1364,123 @@ func (w *World) genBurst(r *Rng) *Event {
 	first.then = evs[1:]
 	w.Stats.Probe("dex.gen.burst")
 	return first
+}
+
+// genDormantPool (environment fault for the block hooks): somebody lists a new pair, seeds a pool for it and sends a few
+// coins to the pair's swap-fee collector address, and then nobody trades it (the generators leave the pair alone), so the
+// pair has no last price when the periodic swap-fee conversion reaches it. Another pair's fee collector gets coins too,
+// so that the conversion has already done work for an earlier pool when it reaches the dormant one.
+func (w *World) genDormantPool(r *Rng) *Event {
+	if w.Dex == nil || len(w.Dex.Dormant) > 0 {
+		return nil
+	}
+	h := w.Height()
+	if d := 150 - h%150; d > 70 {
+		return nil
+	}
+	ctx := w.Ctx()
+	app := w.Dex.AppID
+	have := map[string]bool{}
+	for _, pr := range w.App.LiquidityKeeper.GetAllPairs(ctx, app) {
+		have[pairDenomKey(pr.BaseCoinDenom, pr.QuoteCoinDenom)] = true
+	}
+	denoms := []string{}
+	for _, a := range w.Dex.Traded {
+		denoms = append(denoms, a.Denom)
+	}
+	if !w.Cfg.KB("fee_asset_traded") {
+		denoms = append(denoms, "ucmdx")
+	}
+	var cands [][2]string
+	for i := range denoms {
+		for j := range denoms {
+			if i != j && !have[pairDenomKey(denoms[i], denoms[j])] {
+				cands = append(cands, [2]string{denoms[i], denoms[j]})
+			}
+		}
+	}
+	if len(cands) == 0 {
+		return nil
+	}
+	c := cands[r.Intn(len(cands))]
+	a := w.dexUser(r)
+	x, y := sdk.NewInt(r.Range(2_000_000, 40_000_000)), sdk.NewInt(r.Range(2_000_000, 40_000_000))
+	if w.Bal(a.Addr, c[1]).LT(x.MulRaw(2)) || w.Bal(a.Addr, c[0]).LT(y.MulRaw(2)) {
+		return nil
+	}
+	pairID := w.App.LiquidityKeeper.GetLastPairID(ctx, app) + 1
+	first := w.TxEvent("env.dormant_pool", a, liqtypes.NewMsgCreatePair(app, a.Addr, c[0], c[1]))
+	first.Fault = "env.dormant_pool"
+	gift := func(to sdk.AccAddress, denom string) *Event {
+		amt := sdk.NewInt(r.Range(1000, 900000))
+		ev := w.TxEvent("env.unsolicited", a, banktypes.NewMsgSend(a.Addr, to, sdk.NewCoins(sdk.NewCoin(denom, amt))))
+		ev.Fault = "env.unsolicited"
+		return ev
+	}
+	first.then = []*Event{
+		w.TxEvent("env.dormant_pool", a, liqtypes.NewMsgCreatePool(app, a.Addr, pairID, sdk.NewCoins(sdk.NewCoin(c[1], x), sdk.NewCoin(c[0], y)))),
+		gift(liqtypes.PairSwapFeeCollectorAddress(app, pairID), c[r.Intn(2)]),
+		gift(liqtypes.PairSwapFeeCollectorAddress(app, pairID), c[r.Intn(2)]),
+	}
+	// coins for the collectors of the pairs that do trade
+	for _, pr := range w.App.LiquidityKeeper.GetAllPairs(ctx, app) {
+		d := []string{pr.BaseCoinDenom, pr.QuoteCoinDenom}[r.Intn(2)]
+		if w.Bal(a.Addr, d).GT(sdk.NewInt(2_000_000)) {
+			first.then = append(first.then, gift(pr.GetSwapFeeCollectorAddress(), d))
+		}
+	}
+	w.Dex.Dormant = map[pkey]bool{{app, pairID}: true}
+	w.Stats.Probe("dex.gen.dormant_pool")
+	return first
+}
+
+// genFarmSpread: one user provides liquidity to and farms several pools of an app in one go (the pool of a master-pool
+// gauge first when there is one), so that master/child configurations have farmers on both sides with different weights.
+func (w *World) genFarmSpread(r *Rng) *Event {
+	pools := w.dexPools()
+	if len(pools) < 2 {
+		return nil
+	}
+	app := w.Dex.AppID
+	var mine []dexPool
+	for _, p := range pools {
+		if p.AppId == app && !p.Disabled {
+			mine = append(mine, p)
+		}
+	}
+	if len(mine) < 2 {
+		return nil
+	}
+	// master pool first
+	for _, g := range w.App.Rewardskeeper.GetAllGauges(w.Ctx()) {
+		if md := g.GetLiquidityMetaData(); md != nil && md.IsMasterPool && g.IsActive && g.AppId == app {
+			for i, p := range mine {
+				if p.Id == md.PoolId {
+					mine[0], mine[i] = mine[i], mine[0]
+				}
+			}
+			break
+		}
+	}
+	a := w.dexUser(r)
+	var evs []*Event
+	for i, p := range mine {
+		if i > 0 && r.Intn(3) == 0 {
+			continue
+		}
+		coins := w.depositCoins(r, a, p)
+		if coins.Empty() {
+			continue
+		}
+		evs = append(evs, w.TxEvent("lp.deposit_farm", a, liqtypes.NewMsgDepositAndFarm(p.AppId, a.Addr, p.Id, coins)))
+		if len(evs) == 3 {
+			break
+		}
+	}
+	if len(evs) < 2 {
+		return nil
+	}
+	evs[0].then = evs[1:]
+	w.Stats.Probe("dex.gen.farm_spread")
+	return evs[0]
 }
